@@ -28,7 +28,7 @@ def gate_params(name):
 def run(tier, seed):
     rng = random.Random(900 + seed)
     names = [g for g in sorted(set(ONE_PARAM) | set(MULTI_PARAM)) if g not in ("GlobalPhase", "U1")] + ["U1"]
-    ctx_per = 3 if tier == "quick" else 12
+    ctx_per = 2 if tier == "quick" else 12
     jobs = []          # (name, param index, n, pre, gate template, post, observable word)
     for name in names:
         if name == "PauliRot":
